@@ -219,6 +219,10 @@ fn run_case(f: &Fault, pool: &[Decl], c: &CaseSpec) -> Outcome {
     first
 }
 
+thread_local! {
+    static REPEAT_OK: std::cell::Cell<u8> = const { std::cell::Cell::new(0) };
+}
+
 fn run_case_named(f: &Fault, pool: &[Decl], c: &CaseSpec, policy: usize) -> Outcome {
     let files = texts_of(f, pool, c);
     let names: Vec<String> = file_names(policy, files.len());
@@ -230,9 +234,29 @@ fn run_case_named(f: &Fault, pool: &[Decl], c: &CaseSpec, policy: usize) -> Outc
         }
         ironplcc::verif::set_order(Some(c.order.clone()));
         let r = p.semantic();
+        // the same project asked again (an editor asks after every keystroke), and asked again after a
+        // valid document was added: a failing set stays failing
+        let small = c.companions.len() <= 2 && policy == 0;
+        let again_ok = small && r.is_err() && p.semantic().is_ok();
+        let after_add_ok = small && r.is_err() && {
+            p.change_text_document(&crate::front::fid("/w/zz_added_later.st"), "FUNCTION_BLOCK AddedLater VAR n : INT ; END_VAR n := 1 ; END_FUNCTION_BLOCK\n".to_string());
+            p.semantic().is_ok()
+        };
         ironplcc::verif::set_order(None);
+        if again_ok || after_add_ok {
+            REPEAT_OK.with(|c| c.set(if again_ok { 1 } else { 2 }));
+        }
         r
     });
+    let repeat = REPEAT_OK.with(|c| c.replace(0));
+    if repeat != 0 && r.as_ref().map(|x| x.is_err()).unwrap_or(false) {
+        let how = if repeat == 1 { "asked-again" } else { "asked-again-after-adding-a-valid-document" };
+        return Outcome {
+            key: Some(format!("{}#failing-set-reported-OK-when-{}", f.kind, how)),
+            what: format!("semantic() fails on the set, but the same project {} returns Ok; files: {:?}", how.replace('-', " "), files.iter().map(|t| crate::util::short(t, 70)).collect::<Vec<_>>()),
+            class: "masked: reported OK",
+        };
+    }
     let companions_shape = if c.companions.is_empty() {
         "alone"
     } else if c.companions.contains(&usize::MAX) {
@@ -357,7 +381,7 @@ pub fn cases(deep: bool) -> (Vec<Fault>, Vec<Decl>, Vec<CaseSpec>) {
 pub fn run(ctx: &mut Ctx) {
     let thorough = ctx.tier.thorough();
     let (fs, pool, specs) = cases(thorough);
-    ctx.rule = "faulty unit (4 file-level faults, 7 independent declaration-level faults, same-name pairs: 10 declaration forms x {identical, different body, different case} and 18 cross-kind pairs) x companion lists (prefixes of a valid dependency chain, and companions that use the duplicated name) x every position of the faulty declarations x every set partition into files x every file iteration order, and for sets of at least two files with at most two companions also under three further file-naming policies (names that differ in case only, the same name in different directories, one name a prefix of the other); distinct = distinct (fault, companions, positions, partition, order)".into();
+    ctx.rule = "faulty unit (4 file-level faults, 7 independent declaration-level faults, same-name pairs: 10 declaration forms x {identical, different body, different case} and 18 cross-kind pairs) x companion lists (prefixes of a valid dependency chain, and companions that use the duplicated name) x every position of the faulty declarations x every set partition into files x every file iteration order, and for sets of at least two files with at most two companions also under three further file-naming policies (names that differ in case only, the same name in different directories, one name a prefix of the other); every failing project with at most two companions is asked a second time, and a third time after a valid document was added; distinct = distinct (fault, companions, positions, partition, order)".into();
     ctx.bounds.insert("faults".into(), json!(fs.len()));
     ctx.bounds.insert("max_companions".into(), json!(if thorough { 5 } else { 4 }));
     ctx.bounds.insert("max_files".into(), json!(if thorough { 5 } else { 4 }));
